@@ -35,7 +35,15 @@ class CNode:
         return f"<{self.id}:{self.kind}@{ln}>"
 
 
+def _unbool(e: ast.expr) -> ast.expr:
+    """bool(x) as a truth value is x"""
+    while isinstance(e, ast.Call) and isinstance(e.func, ast.Name) and e.func.id == "bool" and len(e.args) == 1 and not e.keywords:
+        e = e.args[0]
+    return e
+
+
 def facts_true(e: ast.expr) -> List[Atom]:
+    e = _unbool(e)
     if isinstance(e, ast.BoolOp) and isinstance(e.op, ast.And):
         return [a for v in e.values for a in facts_true(v)]
     if isinstance(e, ast.UnaryOp) and isinstance(e.op, ast.Not):
@@ -46,6 +54,7 @@ def facts_true(e: ast.expr) -> List[Atom]:
 
 
 def facts_false(e: ast.expr) -> List[Atom]:
+    e = _unbool(e)
     if isinstance(e, ast.BoolOp) and isinstance(e.op, ast.Or):
         return [a for v in e.values for a in facts_false(v)]
     if isinstance(e, ast.UnaryOp) and isinstance(e.op, ast.Not):
